@@ -103,6 +103,15 @@ func init() {
 		e.callClosure(st, args[1], nil, func(st *State, res Value) {}, nil)
 		return pendingV, true
 	}
+	// uuid.New(): fresh, pairwise distinct ids (a counter in the first bytes)
+	exact["github.com/google/uuid.New"] = func(e *Engine, st *State, fn *ssa.Function, args []Value, retTo *ssa.Call) (Value, bool) {
+		st.goSeq += 0
+		st.uuidSeq++
+		arr := zero(fn.Signature.Results().At(0).Type()).(*ArrayV)
+		arr.E[0] = ConstU(uint64(st.uuidSeq>>8), 8)
+		arr.E[1] = ConstU(uint64(st.uuidSeq&0xff), 8)
+		return arr, true
+	}
 	exact["github.com/mr-tron/base58.Encode"] = opaqueString("base58")
 	exact["regexp.MustCompile"] = noop
 	exact["regexp.Compile"] = noop
